@@ -105,6 +105,9 @@ def run_np_case(rec, k):
     if rk == "arr" and o.get("converted"):
         conv = float(cgs(ru) / cgs(lu))
         tol = unit_tol(lu, ru)
+    elif rk != "arr" and o.get("converted"):
+        conv = float(1 / cgs(lu))            # a plain number is a dimensionless quantity: expressed in the (scaled dimensionless) unit of the Array
+        tol = unit_tol(lu, lu)
     rraw = rarr * conv if conv != 1.0 else rarr
     want = fn([raw, rraw]) if seq else fn(raw, rraw)
     return _compare(res, want, o, [dt, rdt], tol, f)
